@@ -142,7 +142,7 @@ def run(rep: vk.Report):
         params = {}
         for e in es:
             common.params_of(e, params)
-        for rnd in range(3 if params else 2):
+        for rnd in ([0, 1, 2, 3] if params else [0, 1, 3]):
             if rnd == 2:
                 # Parameters re-set AFTER the Jacobian / gradient callables were compiled
                 for nme, pp in params.items():
@@ -151,6 +151,13 @@ def run(rep: vk.Report):
                         param_updates += 1
             ppts = {nme: float(p.value) for nme, p in params.items() if np.ndim(p.value) == 0}
             pt = common.pick_point(rng, [v.name for v in V])
+            if rnd == 3:
+                # a badly scaled but perfectly regular point: entries beyond 1e16 are ordinary derivative values there.  Only for
+                # polynomials of small degree (anything else overflows, or makes the interval arithmetic explode)
+                degs = [e.degree for e in es]
+                if any(d_ is None or d_ > 5 for d_ in degs) or max(degs) < 3:
+                    continue
+                pt = {v.name: float(rng.choice([1.0e5, 3.0e5, 1.0e6, -2.0e5, 2.5e6])) for v in V}
             x = np.array([pt[v.name] for v in V], dtype=float)
             with np.errstate(all="ignore"):
                 try:
